@@ -48,6 +48,7 @@ void vx_sleep_ns(uint64_t ns);        // timed block on the virtual clock
 void vx_focus_begin(void);            // schedule branching starts here
 void vx_focus_end(void);
 void vx_end(void) __attribute__((noreturn));   // finish the execution from any thread (runs the oracle)
+void vx_set_spurious(int on);         // spurious futex/sem wake-ups as a deviation (default on)
 void vx_expect_crash(void);           // a trap from here on is the expected outcome
 void vx_fail(const char *fmt, ...) __attribute__((format(printf,1,2), noreturn));
 int  vx_self(void);                   // scheduler thread index of the caller
